@@ -193,37 +193,39 @@ theorem genLen_eq (i : Img) (ha : 0 < i.alignment) :
     by_cases hs : s = 0
     · subst hs
       simp only [Int.natCast_zero, ne_eq, not_true_eq_false, decide_false, Bool.false_eq_true, if_false]
-      -- the maximum, whatever list expression the generator produced for it
-      have key : ∀ (L : List Int), L ≠ [] →
-          (∀ x, x ∈ L ↔ (x = (if binTruthy bin = true then (rawLen bin : Int) else 0) ∨ ∃ c ∈ ch, x = (c.offset : Int) + c.len)) →
-          maxOf L = some ((max (binLen bin) (childrenEnd ch) : Nat) : Int) := by
-        intro L hne hchar
-        obtain ⟨m, hm, hmem, hub⟩ := maxOf_spec L hne
+      -- the maximum, whatever scalars the generator collected in front of the per-child list (the own binary's length, possibly
+      -- literal zeros from a `default=0` / an initial value) and however it wrote the per-child expression
+      generalize hown : (if binTruthy bin = true then (rawLen bin : Int) else 0) = own
+      have hb : (binLen bin : Int) = own := by rw [← hown]; exact binLen_cast bin
+      have key : ∀ (S P : List Int), (∀ x ∈ S, x = own ∨ x = 0) → own ∈ S →
+          (∀ x, x ∈ P ↔ ∃ c ∈ ch, x = (c.offset : Int) + c.len) →
+          maxOf (S ++ P) = some ((max (binLen bin) (childrenEnd ch) : Nat) : Int) := by
+        intro S P hS hown' hP
+        obtain ⟨m, hm, hmem, hub⟩ := maxOf_spec (S ++ P) (by intro h; rw [List.append_eq_nil_iff] at h; rw [h.1] at hown'; cases hown')
         rw [hm]; congr 1
-        have hb := binLen_cast bin
+        have h1 : (binLen bin : Int) ≤ m := by rw [hb]; exact hub _ (List.mem_append_left _ hown')
         apply Int.le_antisymm
-        · rcases (hchar m).mp hmem with hmem | ⟨c, hc, hmem⟩
-          · rw [hmem, ← hb]; omega
-          · have := childrenEnd_ge ch c hc
+        · rcases List.mem_append.mp hmem with hmem | hmem
+          · rcases hS m hmem with h | h <;> omega
+          · obtain ⟨c, hc, hmem⟩ := (hP m).mp hmem
+            have := childrenEnd_ge ch c hc
             omega
-        · have h1 : (binLen bin : Int) ≤ m := by rw [hb]; exact hub _ ((hchar _).mpr (Or.inl rfl))
-          have h2 : (childrenEnd ch : Int) ≤ m := by
+        · have h2 : (childrenEnd ch : Int) ≤ m := by
             rcases childrenEnd_attained ch with h0 | ⟨c, hc, he⟩
             · omega
             · rw [he]
-              have := hub ((c.offset : Int) + c.len) ((hchar _).mpr (Or.inr ⟨c, hc, rfl⟩))
+              have := hub ((c.offset : Int) + c.len) (List.mem_append_right _ ((hP _).mpr ⟨c, hc, rfl⟩))
               omega
           omega
-      rw [key _ (by simp) (by
-        intro x
-        simp only [List.mem_append, List.mem_cons, List.mem_map, kidsOf, List.map_map, List.not_mem_nil, or_false, Function.comp]
-        constructor
-        · rintro (h | ⟨c, hc, h⟩)
-          · exact Or.inl h
-          · exact Or.inr ⟨c, hc, h.symm⟩
-        · rintro (h | ⟨c, hc, h⟩)
-          · exact Or.inl h
-          · exact Or.inr ⟨c, hc, h.symm⟩)]
+      rw [key _ _
+        (by intro x hx; simp only [List.mem_cons, List.not_mem_nil, or_false] at hx; omega)
+        (by simp only [List.mem_cons, List.not_mem_nil, or_false, true_or, or_true])
+        (by
+          intro x
+          simp only [List.mem_map, kidsOf, List.map_map, Function.comp]
+          constructor
+          · rintro ⟨c, hc, h⟩; exact ⟨c, hc, h.symm⟩
+          · rintro ⟨c, hc, h⟩; exact ⟨c, hc, h.symm⟩)]
       simp only [ofOption]
       rw [align_eq_alignNat _ _ ha]
     · have : ((s : Int) ≠ 0) := by omega
